@@ -213,10 +213,6 @@ def defect_classes(req):
         neg = [n for n, t in u.items() if t["file"] == fp.name and t["kind"] == "e" and any(v.number < 0 for v in t["pb"].value)]
         if neg:
             out.setdefault("enum.negative_value", []).append((fp.name, neg))
-        mis = rel_misfire_sites(u, fp)
-        # also map values rendered relative to the enclosing message
-        if mis:
-            out.setdefault("rel.nested_named_like_toplevel", []).append((fp.name, mis))
         seen = {}
         for n, t in u.items():
             if t["file"] != fp.name or t["kind"] != "m":
@@ -228,7 +224,13 @@ def defect_classes(req):
                         seen.setdefault(a["module"], set()).add(tuple(a["pkg"]))
         clash = sorted(m for m, pk in seen.items() if len(pk) > 1)
         if clash:
-            out.setdefault("import.pb2_same_basename", []).append((fp.name, clash))
+            # DESIGN section 9 no. 15b: the alias scheme (initials of the package components) cannot tell foo.bar from fab.baz;
+            # kept apart so that a repair of no. 15 that reuses module_alias is not masked by 15b
+            def initials(pk):
+                return "".join(part[:1] for comp in pk if comp != "v1" for part in comp.split("_"))
+            same = [m for m in clash if len({initials(pk) for pk in seen[m]}) < len(seen[m])]
+            sig = "import.alias_equal_initials" if same else "import.pb2_same_basename"
+            out.setdefault(sig, []).append((fp.name, clash))
     return out
 
 
@@ -362,8 +364,6 @@ class Builder:
         for _ in range(8):
             t = r.choice(group)
             fq = t["fqn"]
-            if self.is_misfire(me, fq) and not self.flavor.get("misfire"):
-                continue
             break
         else:
             return None
@@ -378,7 +378,7 @@ class Builder:
         elif t["file"] == file.proto.name and fq.split(".")[-len(fq.split(".")) + len(TARGET.split(".")) + 1] == top:
             self.features.add("ref-sibling-nested")
         if self.is_misfire(me, fq):
-            self.features.add("rel-misfire")
+            self.features.add("ref-from-nested-named-like-toplevel")
         return fq
 
     @staticmethod
@@ -503,7 +503,8 @@ class Builder:
         if fl.get("deps", r.random() < 0.6):
             self.dep_package("foo.bar", "common", "Foo")
             if fl.get("pb2_clash"):
-                self.dep_package("fab.baz", "common", "Fab")
+                self.clash_pkg = r.choice(["fab.baz", "qux.baz", "qux.baz"])
+                self.dep_package(self.clash_pkg, "common", "Fab")
                 self.features.add("dep-same-basename")
             elif r.random() < 0.5:
                 self.dep_package("fab.baz", "other", "Fab")
@@ -516,8 +517,8 @@ class Builder:
             # make sure both clashing modules are really used by one file
             f = self.files[-1]
             m = f.message("ClashHolder")
-            m.field("a", 1, ".foo.bar.FooThing").field("b", 2, ".fab.baz.FabThing")
-            f.dep("foo/bar/common.proto"); f.dep("fab/baz/common.proto")
+            m.field("a", 1, ".foo.bar.FooThing").field("b", 2, f".{self.clash_pkg}.FabThing")
+            f.dep("foo/bar/common.proto"); f.dep(self.clash_pkg.replace(".", "/") + "/common.proto")
         if len(self.files) > 1:
             self.features.add(f"files={len(self.files)}")
         req = apigen.request(self.dep_files + self.files, to_generate=[f.proto.name for f in self.files], parameter="transport=grpc")
